@@ -229,6 +229,16 @@ def build_curve_history(case, mode, use=default_use):
     return curve
 
 
+def refined_weight_vanishes(ref, newU, newp):
+    """True when the rational state ``ref`` has, on the refined vector (newU, newp), a control weight exactly 0:
+    the curve is then not representable by finite control points (P_i, w_i) there, and the library refuses the
+    operation (leaving the curve as it was).  Only reachable with weights of mixed sign."""
+    if ref.w is None:
+        return False
+    den = oracle.refine_state(oracle.denominator_state(ref), newU, newp)
+    return any(pt[0] == 0 for pt in den.P)
+
+
 def case_state(case):
     """Reference state of a curve case *as the library receives it* (floats
     are converted first, then taken exactly)."""
